@@ -21,7 +21,7 @@ class Deadlock(Exception):
 
 
 class Sched:
-    def __init__(self, n, switches=None, wait_s=20.0):
+    def __init__(self, n, switches=None, wait_s=90.0):
         self.n = n
         self.sw = dict(switches or {})
         self.go = [threading.Lock() for _ in range(n)]
@@ -207,7 +207,7 @@ class Pool:
                 sched.finish(i)
                 self.fin.release()
 
-    def run(self, sched, bodies, tracer_for=None, join_s=40.0):
+    def run(self, sched, bodies, tracer_for=None, join_s=240.0):
         assert len(bodies) == self.n and not self.broken
         for i in range(self.n):
             self.results[i] = None
